@@ -324,9 +324,6 @@ theorem mps_offset_floor (startRef ts refTs : Nat) (h : 0 < refTs) :
     have := div_bounds (startRef * ts) refTs h
     rw [Nat.add_mul]; omega
 
-/-- distance between two tick values -/
-def dist (a b : Nat) : Nat := (a - b) + (b - a)
-
 /-- **the counting origin is the segment whose start is nearest the Period's source
 offset**: when the search stays inside the media (`i₀ < n`, i.e. the Period is not refused),
 no stored segment starts nearer to `tc` than segment `i₀` (ties go to the earlier one) -/
